@@ -39,7 +39,7 @@ Definition d_fs (v : val) : fs :=
 
 Definition d_route (v : val) : route :=
   {| r_prefix := dstr (nth_val 0 v); r_dir := dstr (nth_val 1 v);
-     r_fallback := dopt dstr (nth_val 2 v) |}.
+     r_fallback := dopt dstr (nth_val 2 v); r_downloadable := dbool (nth_val 3 v) |}.
 
 Definition d_resp (v : val) : response :=
   match v with
@@ -70,6 +70,16 @@ Definition run (v : val) : val :=
        vopt vstr (sanitize (List.length (dstr prefix)) (dbool fb) (dstr dir) (dstr path))]
   | L [I 2; rt; files; opt; path; ims; rng] =>
     v_resp (serve (d_route rt) (d_fs files) (dbool opt) (dstr path) (dopt dZ ims) (d_rng rng))
+  | L [I 9; rt; files; opt; path; ims; rng; types] =>
+    let r := serve (d_route rt) (d_fs files) (dbool opt) (dstr path) (dopt dZ ims) (d_rng rng) in
+    L [v_resp r;
+       vopt (fun p => L [vstr (fst p); vopt vstr (snd p)])
+            (served_headers (d_route rt)
+               (dlist (fun e => (dstr (nth_val 0 e), dstr (nth_val 1 e))) types) r)]
+  | L [I 10; p] => L [vstr (basename (dstr p)); vstr (splitext_ext (dstr p))]
+  | L [I 11; rt; types; f] =>
+    L [vstr (content_type_of (dlist (fun e => (dstr (nth_val 0 e), dstr (nth_val 1 e))) types) (dstr f));
+       vopt vstr (disposition_of (d_route rt) (dstr f))]
   | L [I 3; value] => vopt v_rng (parse_range (dstr value))
   | L [I 4; size; rr] =>
     match set_range (dZ size) (dopt (fun p => (dZ (nth_val 0 p), dZ (nth_val 1 p))) rr) with
